@@ -53,7 +53,9 @@ class ServerApp:
         c = self.cidx_of.get(sid)
         s = self.k.ev('app.' + ev, sid=sid, arg=_brief(arg), c=c)
         rec = {'seq': s, 't': self.k.now, 'ev': ev, 'sid': sid, 'arg': arg,
-               'c': c, 'n': n, 'actor': self.k.actor_name()}
+               'c': c, 'n': n, 'actor': self.k.actor_name(),
+               'spawn_seq': self.k.current.spawn_seq
+               if self.k.current is not None else None}
         self.events.append(rec)
         if self.on_event:
             self.on_event(rec)
@@ -880,6 +882,7 @@ def run_server_scenario(plan, sched_values=None, sched_seed=0):
     tape = Tape(seed=sched_seed, values=sched_values)
     k = K.Kernel(tape, horizon=plan.get('horizon', 60.0),
                  step_cap=plan.get('step_cap', 200000))
+    k.fixed_latency = plan.get('fixed_latency')
     world = make_world(plan.get('server', 'threaded'), k,
                        config=_config_from_plan(plan.get('config', {})),
                        app_opts=plan.get('app_opts', {}),
